@@ -4,10 +4,16 @@ PROP = {
     "extra_v": ["ClientSyncRun.v"],
     "suites": [("test", "rogue")],
     "run_vo": "ClientSyncRun.vo",
-    "assumptions": [],
+    "assumptions": [
+        "signature verification is an arbitrary function in the theorems; in the correspondence run it is membership in the table of signatures the harness created with glow.Sign (a rogue authorized server = the harness holding that server's private key)",
+        "one sync round at a time: the round captures the GCA key when it starts and applies the accepted reply before the next one starts (the trigger leaves at least 4 ticks between launches); a peer that keeps the connection open and stays silent blocks that round's goroutine only (outcome OHang: no lock is held, the loop keeps running) -- the client sets no read deadline",
+        "file writes succeed (os.WriteFile failing makes the client panic by design); the re-send scan after a successful round (C08) is outside this model",
+        "lock balance is proved on the model of threadedSyncWithServer and tied to the code by the try-lock probe after every round of the suite; the planned syntactic skeleton check of every locking function (T4) is not part of this work package",
+        "c11_keeps_reporting is about the tick counter of threadedSendReports as written (60 / %4==3); the constants are tied to the running code only behaviourally (suite part D: a real client keeps reporting and retries the sync after failed rounds)",
+    ],
 }
 TEXT = {
-    "text": "wip",
-    "note": "wip",
-    "technique": "Coq proof + differential correspondence (vm_compute)",
+    "text": "Coq model of the client's receive path (client_recv/parse_reply: every slice expression with an explicit Panic outcome, uint16 wrap-around of respLen-72 etc.) and of threadedSyncWithServer (sync_round: five attempts, failed set, shuffles and per-attempt outcomes as inputs, explicit lock flag, apply_sync, persistence) in two revisions: v_prefix (code as found) and v_fixed (after the two repairs). Theorems, for ALL byte strings / ALL outcome functions / ALL server maps and an arbitrary verify: c11_parse_total (no panic, no fuel exhaustion), c11_lock_released, c11_round_never_panics, c11_never_selects_banned, c11_ban_monotone and c11_ban_survives_restart (histories of rounds and restarts; persisted map round trip proved for the model's codec), c11_loop_not_wedged + c11_keeps_reporting (a sync is launched within 60 ticks from any counter value and any status sequence); c11_prefix_parse_panics and c11_prefix_lock_held are the two defects in the model of the unrepaired code. Both defects were first reproduced against the real code by ./check (replays in corpus/C11), then repaired in /repo (fix: commits 7d1d5a7, d1fc90f). Tie: suite rogue -- length-prefix sweep 0..65535, contents of 64..1100 bytes correctly signed by the contacted server, genuine replies mutated and re-signed, client histories over 1..6 scripted TCP servers (refuse, reset, short, bad signature, stale, wrong device, bad inner signatures, truncated list, success, delayed), all-banned / all-failed / single-down configurations, restarts, a try-lock probe and the three files after every round, and a real NewClient whose only server is down (datagrams must keep arriving at a UDP sink, sync must be retried).",
+    "note": "Trusted: Coq kernel + vm_compute, the harness (scripted peers, oracle, signature table), secp256k1, the Go runtime's panic recovery used as the panic witness. The selected server of each attempt is observed through a one-line verif hook (no-op in normal builds).",
+    "technique": "Coq proof (all byte strings, all outcome vectors, arbitrary verify) + differential correspondence (vm_compute) + fault injection with scripted TCP peers against the real client",
 }
